@@ -69,7 +69,10 @@ def gen(R):
     for _ in range(R.int(1, 8)):
         n = R.weighted([(3, 1), (2, 4)])
         ops.append({"gap": R.choice([0.5, 3.0]), "burst": [{"id": R.choice(["hook1", "hook1", "hook2"]), "json": R.bool(), "payload": R.choice([{"n": 2}, {"n": 1, "a": "b"}, {"a": "b"}, {}])} for _ in range(n)]})
-    return {"kind": "webhook", "legacy": legacy, "filter": filt, "kwargs": R.choice([None, {"extra": 3}]), "ops": ops}
+    # before one of the steps a second listener of the same webhook id appears for a while (task.wait_until in another
+    # function, with a time-out): when it stops, the function's own trigger must keep receiving requests
+    return {"kind": "webhook", "legacy": legacy, "filter": filt, "kwargs": R.choice([None, {"extra": 3}]), "ops": ops,
+            "arm_at": R.choice([None, 0, 0, 1, 2])}
 
 
 def script(case):
@@ -110,7 +113,8 @@ def script(case):
         args = ["'hook1'"] + ([repr(case["filter"])] if case["filter"] else [])
         if case["kwargs"]:
             args.append(f"kwargs={case['kwargs']!r}")
-        L += [f"@webhook_trigger({', '.join(args)})", "def w(**kw):", "    vrec('start', 'w', kw, vtask(), None)", ""]
+        L += [f"@webhook_trigger({', '.join(args)})", "def w(**kw):", "    vrec('start', 'w', kw, vtask(), None)", "",
+              "@event_trigger('arm')", "def waiter(**kw):", "    r = task.wait_until(webhook_trigger='hook1', timeout=1.2)", "    vrec('waited', r.get('trigger_type'))", ""]
     return "\n".join(L)
 
 
@@ -191,9 +195,12 @@ async def execute(case):
             fired = []  # (rel time, message dict, context id)
             seq = 0
             t = 0.0
-            for step in case["ops"]:
+            for si, step in enumerate(case["ops"]):
                 t += step["gap"]
                 await it.sleep_until(t0 + t)
+                if case.get("arm_at") == si:
+                    it.fire("arm", {})
+                    await it.settle(1)
                 for msg in step["burst"]:
                     seq += 1
                     if case["kind"] == "event":
